@@ -76,9 +76,23 @@ var (
 	Local = time.Local
 )
 
-func Now() Time                                { return time.Now() }
-func Since(t Time) Duration                    { return time.Since(t) }
-func Until(t Time) Duration                    { return time.Until(t) }
+// wallSkew models the passage of wall-clock time while a thread is merely preempted (virtual time
+// itself only advances when every thread is blocked): a harness thread adds to it as one of its
+// scheduled steps, so that "the clock moved between reading it and taking the lock" is a schedule.
+// Timers are not affected (they are monotonic).
+var wallSkew time.Duration
+
+func AddWallSkew(d Duration) { wallSkew += d }
+func ResetWallSkew()         { wallSkew = 0 }
+
+func Now() Time {
+	if wallSkew != 0 {
+		return time.Now().Add(wallSkew)
+	}
+	return time.Now()
+}
+func Since(t Time) Duration { return Now().Sub(t) }
+func Until(t Time) Duration { return t.Sub(Now()) }
 func Unix(s, ns int64) Time                    { return time.Unix(s, ns) }
 func UnixMilli(ms int64) Time                  { return time.UnixMilli(ms) }
 func UnixMicro(us int64) Time                  { return time.UnixMicro(us) }
